@@ -25,18 +25,26 @@ mod verif_layout {
         NdLayout { shape, strides }
     }
 
-    /// Largest offset over the integers (u128), None if the layout has no elements.
-    fn z_max_offset<const N: usize>(l: &NdLayout<N>) -> Option<u128> {
-        let mut m: u128 = 0;
+    /// Largest offset over the integers, as Ok(Some(m)) if it fits in usize, Ok(None) if the
+    /// layout has no elements, Err(()) if it does not fit (computed with checked usize
+    /// arithmetic: equal to the integer value exactly when no step overflows).
+    fn z_max_offset<const N: usize>(l: &NdLayout<N>) -> Result<Option<usize>, ()> {
+        let mut m: Option<usize> = Some(0);
         let mut empty = false;
         for i in 0..N {
             if l.shape[i] == 0 {
                 empty = true;
             } else {
-                m = m.saturating_add((l.shape[i] as u128 - 1) * (l.strides[i] as u128));
+                m = match m {
+                    Some(acc) => match (l.shape[i] - 1).checked_mul(l.strides[i]) {
+                        Some(t) => acc.checked_add(t),
+                        None => None,
+                    },
+                    None => None,
+                };
             }
         }
-        if empty { None } else { Some(m) }
+        if empty { Ok(None) } else { match m { Some(m) => Ok(Some(m)), None => Err(()) } }
     }
 
     fn any_index_in<const N: usize>(shape: [usize; N]) -> [usize; N] {
@@ -64,26 +72,33 @@ mod verif_layout {
             /// min_data_len equals (max offset over Z) + 1 whenever that value fits in usize.
             #[kani::proof]
             #[kani::unwind(5)]
+            #[kani::solver(z3)]
             pub fn $name_len() {
                 let l: NdLayout<$n> = any_layout_full();
                 match z_max_offset(&l) {
-                    None => assert!(l.min_data_len() == 0),
-                    Some(m) => {
-                        kani::assume(m < usize::MAX as u128);
+                    Ok(None) => assert!(l.min_data_len() == 0),
+                    Ok(Some(m)) => {
+                        kani::assume(m < usize::MAX);
                         kani::cover!(m > 1 << 40);
-                        assert!(l.min_data_len() as u128 == m + 1);
+                        assert!(l.min_data_len() == m + 1);
                     }
+                    // not representable: nothing is demanded here; the constructors must reject such
+                    // layouts (U-tensor-ctor obligations)
+                    Err(()) => {}
                 }
             }
 
+            /// (NOT registered in unit.json: superseded by the unbounded Verus proof U-ndlayout-v; CBMC
+            /// and z3 both need > 10 min for the 64x64->128-bit products even at rank 1.)
             /// offset(idx) is Some(sum idx*stride) exactly for in-bounds indices and the
             /// TrustedLayout promise holds: every returned offset is < min_data_len.
             #[kani::proof]
             #[kani::unwind(5)]
+            #[kani::solver(z3)]
             pub fn $name_off() {
                 let l: NdLayout<$n> = any_layout_full();
                 let m = z_max_offset(&l);
-                kani::assume(match m { None => true, Some(m) => m < usize::MAX as u128 });
+                kani::assume(match m { Ok(None) => true, Ok(Some(m)) => m < usize::MAX, Err(()) => false });
                 let idx: [usize; $n] = kani::any();
                 let mut inb = true;
                 for i in 0..$n {
@@ -270,6 +285,27 @@ mod verif_layout {
 
     #[kani::proof]
     #[kani::unwind(6)]
+    pub fn index_axis_matches_model_2() {
+        let l: NdLayout<2> = any_layout_small();
+        let axis: usize = kani::any();
+        kani::assume(axis < 2);
+        let index: usize = kani::any();
+        kani::assume(index < l.size(axis));
+        let (r, out) = l.index_axis(axis, index);
+        assert!(r.start <= r.end && r.end <= l.min_data_len());
+        assert!(out.size(0) == l.size(1 - axis));
+        if out.len() > 0 {
+            let j = any_index_in(out.shape());
+            let i = if axis == 0 { [index, j[0]] } else { [j[0], index] };
+            let o = out.offset(j).unwrap();
+            assert!(Some(r.start + o) == l.offset(i));
+            assert!(r.start + o < r.end);
+            kani::cover!(index > 0);
+        }
+    }
+
+    #[kani::proof]
+    #[kani::unwind(6)]
     pub fn slice_axis_matches_model_2() {
         let l: NdLayout<2> = any_layout_small();
         let axis: usize = kani::any();
@@ -299,7 +335,9 @@ mod verif_layout {
 
     // ---------------------------------------------------------------- slice with SliceItems
 
-    fn any_slice_item() -> SliceItem {
+    /// Index, or a range with step 1 (the stepped arithmetic is covered by
+    /// `slice_stepped_matches_model_1` and, unboundedly, by the Verus unit U-slice-arith).
+    fn any_slice_item_step1() -> SliceItem {
         if kani::any() {
             let i: i8 = kani::any();
             SliceItem::Index(i as isize)
@@ -307,33 +345,29 @@ mod verif_layout {
             let s: i8 = kani::any();
             let e: i8 = kani::any();
             let has_end: bool = kani::any();
-            let step: i8 = kani::any();
-            kani::assume(step != 0);
-            SliceItem::Range(SliceRange::new(s as isize, if has_end { Some(e as isize) } else { None }, step as isize))
+            SliceItem::Range(SliceRange::new(s as isize, if has_end { Some(e as isize) } else { None }, 1))
         }
     }
 
     fn norm(i: isize, n: usize) -> isize { if i >= 0 { i } else { i + n as isize } }
 
-    /// NdLayout<2>::slice::<M> against the reference model (NumPy basic slicing with positive
-    /// steps; rten reports negative steps as InvalidStep): element j of the result is element
-    /// ref(j) of the source, sizes are the Python slice lengths, and the returned offset range
-    /// is within the source's data.
+    /// NdLayout<2>::slice::<M> against the reference model (NumPy basic slicing): element j of
+    /// the result is element ref(j) of the source, sizes are the Python slice lengths, errors are
+    /// reported exactly for out-of-range indices/endpoints and rank mismatches, and the returned
+    /// offset range is within the source's data.
     macro_rules! slice_ok {
         ($name:ident, $m:expr) => {
             #[kani::proof]
             #[kani::unwind(6)]
             pub fn $name() {
                 let l: NdLayout<2> = any_layout_small();
-                let items = [any_slice_item(), any_slice_item()];
+                let items = [any_slice_item_step1(), any_slice_item_step1()];
                 let nitems: usize = kani::any();
                 kani::assume(nitems <= 2);
                 let res = l.slice::<$m>(&items[..nitems]);
-                // reference validity + output rank
                 let mut valid = true;
                 let mut out_rank = 0;
                 let mut starts = [0usize; 2];
-                let mut steps = [1usize; 2];
                 let mut is_index = [false; 2];
                 let mut sizes = [0usize; 2];
                 for d in 0..2 {
@@ -353,14 +387,10 @@ mod verif_layout {
                             out_rank += 1;
                             let s = norm(r.start, n);
                             let e = match r.end { Some(e) => norm(e, n), None => n as isize };
-                            if r.step() < 0 { valid = false; continue; }
                             if s < 0 || s > n as isize || e < 0 || e > n as isize { valid = false; continue; }
                             let e = if e < s { s } else { e };
                             starts[d] = s as usize;
-                            steps[d] = r.step() as usize;
-                            // Python length: ceil((e - s) / step)
-                            let len = (e - s) as usize;
-                            sizes[d] = (len + steps[d] - 1) / steps[d];
+                            sizes[d] = (e - s) as usize;
                         }
                     }
                 }
@@ -379,12 +409,12 @@ mod verif_layout {
                     let mut i = [0usize; 2];
                     let mut k = 0;
                     for d in 0..2 {
-                        if is_index[d] { i[d] = starts[d]; } else { i[d] = starts[d] + j[k] * steps[d]; k += 1; }
+                        if is_index[d] { i[d] = starts[d]; } else { i[d] = starts[d] + j[k]; k += 1; }
                     }
                     let o = out.offset(j).unwrap();
                     assert!(Some(r.start + o) == l.offset(i), "element j of the slice is element ref(j) of the source");
                     assert!(r.start + o < r.end);
-                    kani::cover!(steps[0] > 1);
+                    kani::cover!(starts[0] > 0);
                 }
             }
         };
@@ -393,10 +423,91 @@ mod verif_layout {
     slice_ok!(slice_matches_model_2_to_1, 1);
     slice_ok!(slice_matches_model_2_to_0, 0);
 
+    /// Rank-1 version of the model check above (quick tier): index or step-1 range, M in {0, 1}.
+    macro_rules! slice1_ok {
+        ($name:ident, $m:expr) => {
+            #[kani::proof]
+            #[kani::unwind(4)]
+            pub fn $name() {
+                let l: NdLayout<1> = any_layout_small();
+                let n = l.size(0);
+                let item = any_slice_item_step1();
+                let nitems: usize = kani::any();
+                kani::assume(nitems <= 1);
+                let res = l.slice::<$m>(&[item][..nitems]);
+                let (valid, is_index, start, size) = if nitems == 0 { (true, false, 0, n) } else {
+                    match item {
+                        SliceItem::Index(i) => { let p = norm(i, n); (p >= 0 && p < n as isize, true, p as usize, 0) }
+                        SliceItem::Range(r) => {
+                            let s = norm(r.start, n);
+                            let e = match r.end { Some(e) => norm(e, n), None => n as isize };
+                            let ok = s >= 0 && s <= n as isize && e >= 0 && e <= n as isize;
+                            let e = if e < s { s } else { e };
+                            (ok, false, s as usize, (e - s) as usize)
+                        }
+                    }
+                };
+                let out_rank = if is_index { 0 } else { 1 };
+                if !valid || out_rank != $m {
+                    assert!(res.is_err(), "invalid slice spec / rank mismatch must be an error");
+                    return;
+                }
+                let (r, out) = match res { Ok(x) => x, Err(_) => { assert!(false, "valid slice spec rejected"); return; } };
+                assert!(r.start <= r.end && r.end <= l.min_data_len(), "offset range inside source data");
+                if !is_index { assert!(out.size(0) == size, "Python slice length"); }
+                if out.len() > 0 {
+                    let j = any_index_in(out.shape());
+                    let i = if is_index { start } else { start + j.get(0).copied().unwrap_or(0) };
+                    let o = out.offset(j).unwrap();
+                    assert!(Some(r.start + o) == l.offset([i]), "element j of the slice is element ref(j) of the source");
+                    assert!(r.start + o < r.end);
+                    kani::cover!(start > 0);
+                }
+            }
+        };
+    }
+    slice1_ok!(slice_matches_model_1_to_1, 1);
+    slice1_ok!(slice_matches_model_1_to_0, 0);
+
+    /// Rank-1 slice with an arbitrary (i8) step: positive steps select start, start+step, ...
+    /// below end (Python length), negative steps are reported as InvalidStep.
+    #[kani::proof]
+    #[kani::unwind(4)]
+    pub fn slice_stepped_matches_model_1() {
+        let l: NdLayout<1> = any_layout_small();
+        let n = l.size(0);
+        let (s, e, step): (i8, i8, i8) = (kani::any(), kani::any(), kani::any());
+        kani::assume(step != 0);
+        let has_end: bool = kani::any();
+        let range = SliceRange::new(s as isize, if has_end { Some(e as isize) } else { None }, step as isize);
+        let res = l.slice::<1>(&[SliceItem::Range(range)]);
+        let ns = norm(s as isize, n);
+        let ne = if has_end { norm(e as isize, n) } else { n as isize };
+        let valid = step > 0 && ns >= 0 && ns <= n as isize && ne >= 0 && ne <= n as isize;
+        assert!(res.is_ok() == valid, "errors exactly for negative steps / out-of-range endpoints");
+        if let Ok((r, out)) = res {
+            let ne = if ne < ns { ns } else { ne };
+            let span = (ne - ns) as usize;
+            let st = step as usize;
+            let k = out.size(0);
+            // k == ceil(span / st), stated without division
+            assert!((k == 0 && span == 0) || (k > 0 && (k - 1) * st < span && span <= k * st), "Python slice length");
+            assert!(out.stride(0) == l.stride(0) * st);
+            assert!(r.start <= r.end && r.end <= l.min_data_len());
+            if k > 0 {
+                let j = any_index_in(out.shape());
+                let o = out.offset(j).unwrap();
+                assert!(Some(r.start + o) == l.offset([ns as usize + j[0] * st]));
+                assert!(r.start + o < r.end);
+                kani::cover!(st > 1 && j[0] > 0);
+            }
+        }
+    }
+
     // ---------------------------------------------------------------- broadcast / reshape
 
     #[kani::proof]
-    #[kani::unwind(6)]
+    #[kani::unwind(10)]
     pub fn broadcast_matches_model_2_to_3() {
         let l: NdLayout<2> = any_layout_small();
         let mut to = [0usize; 3];
@@ -407,7 +518,7 @@ mod verif_layout {
         let res: Result<NdLayout<3>, _> = l.broadcast(to);
         assert!(res.is_ok() == ok);
         if let Ok(b) = res {
-            assert!(b.shape() == to);
+            for k in 0..3 { assert!(b.size(k) == to[k]); }
             if b.len() > 0 {
                 let j = any_index_in(to);
                 let i = [if l.size(0) == 1 { 0 } else { j[1] }, if l.size(1) == 1 { 0 } else { j[2] }];
@@ -418,7 +529,7 @@ mod verif_layout {
     }
 
     #[kani::proof]
-    #[kani::unwind(6)]
+    #[kani::unwind(10)]
     pub fn reshaped_for_view_matches_model_2_to_2() {
         let l: NdLayout<2> = any_layout_small();
         let mut to = [0usize; 2];
@@ -429,7 +540,7 @@ mod verif_layout {
             assert!(l.is_contiguous(), "view-reshape needs a contiguous source");
             assert!(to[0] * to[1] == l.len(), "reshape never changes the element count");
             let out = res.unwrap();
-            assert!(out.shape() == to);
+            assert!(out.size(0) == to[0] && out.size(1) == to[1]);
             if out.len() > 0 {
                 // row-major order is preserved: linear position of j in `out` == linear position in `l`
                 let j = any_index_in(to);
